@@ -468,6 +468,22 @@ func R08(group string) Rule {
 				// engines differ on it
 				emptiness := func(at ssa.Instruction, field string) int {
 					for _, f := range core.FactsAtInstr(at) {
+						// a branch on a predicate helper of the range (isUnboundedStart(), hasEnd(), …)
+						if _, _, fname, pop, pk, isPred := lenPredicate(f.Cond); isPred {
+							if fname != field {
+								continue
+							}
+							if !f.Polarity {
+								pop = map[token.Token]token.Token{token.EQL: token.NEQ, token.NEQ: token.EQL, token.LSS: token.GEQ, token.GEQ: token.LSS, token.GTR: token.LEQ, token.LEQ: token.GTR}[pop]
+							}
+							switch {
+							case pop == token.EQL && pk == 0, pop == token.LEQ && pk == 0, pop == token.LSS && pk == 1:
+								return 1
+							case pop == token.NEQ && pk == 0, pop == token.GTR && pk == 0, pop == token.GEQ && pk == 1:
+								return -1
+							}
+							continue
+						}
 						l, op, r, ok := cmpNorm(f)
 						if !ok {
 							continue
